@@ -86,6 +86,26 @@ class Conn:
             self.read_mode = ('exact', n)
             await self._wait()
 
+    async def read(self, n: int = -1) -> bytes:
+        """StreamReader.read: up to n bytes, whatever is buffered; waits only
+        while nothing at all is available."""
+        if n == 0:
+            return b''
+        while True:
+            if self.inbuf and n > 0:
+                data = bytes(self.inbuf[:n])
+                del self.inbuf[:n]
+                self.read_mode = ('none',)
+                return data
+            if self.reset_flag:
+                raise ConnectionResetError('reset by peer')
+            if self.eof_flag:
+                data = bytes(self.inbuf)
+                self.inbuf.clear()
+                return data
+            self.read_mode = ('some',)
+            await self._wait()
+
     def at_eof(self) -> bool:
         return self.eof_flag and not self.inbuf
 
